@@ -7,7 +7,7 @@
      optional string          : [] = None, 1 :: chars = Some chars
      latter map               : key, count, successors ..., key, count, ...
      list of strings          : length, chars ..., length, chars ... *)
-From DSW Require Import Py Bignum Convert Kmer Graph Coder Repair Filter Score.
+From DSW Require Import Py Bignum Convert Kmer Graph Coder Repair Filter Score MT19937.
 
 Definition out_result {A} (enc : A -> list (list Z)) (r : result A) : list (list Z) :=
   match r with
@@ -204,6 +204,8 @@ Definition dispatch_graph (fn : Z) (args : list (list Z)) : option (list (list Z
          let s := fst e in
          let whole := kmer_string kk v0 ++ s in
          Ok [[v0]; s; map (fun i => b2z (f (firstn kk (skipn i whole)))) (seq 0 (S (length s)))]))
+  | 55, [k; seed] =>       (* the table create_random_shuffles builds after numpy.random.seed(seed): NumPy's MT19937 (MT19937.v) *)
+      Some (match mt_rows (Z.to_nat (pow4 (natarg k))) (a1 seed) with Some rows => [[0]; concat rows] | None => [[2]] end)
   | 41, [h; ms; only_last; s] => Some [[0]; [b2z (valid (dec_cfg h ms) (boolarg only_last) s)]]
   | 42, [h; ms] => Some [[0]; [b2z (ctor_accepts (dec_cfg h ms))]]
   | 43, [k; h; ms] => Some (out_result (fun l => [l]) (find_vertices (natarg k) (valid (dec_cfg h ms) true)))
